@@ -37,6 +37,9 @@
 # Round-4 seeds: C13-10 (union result filter `<=`: input theta equal to a hash in the union table), C13-11 (move assignment loses theta),
 #   C13-12 (array deserialize(bytes) takes is_ordered from HAS_ENTRIES) are caught by the deterministic block of every 9th case: same stream into a
 #   big exact and a small-k sketch united in both orders; copies by all four means (op 6 `how` token); operands presented as re-read images (op 36).
+# Round-5 seed C13-15 (array A-not-B fast path for B with zero retained entries): caught by the deterministic 'zero-retained-operands' block
+#   (every 9th case, flavours log / arithmetic / array cycled): non-empty operands retaining nothing (p = 2^-20 sketch, intersection of disjoint
+#   estimation-mode sketches, filter that kept nothing) as A, as B, as first / middle / last union input and as intersection inputs.
 # Harmless rewrites confirmed tolerated (exit 0):
 #   H1  theta_union_base::update always copies the incoming entry (no conditional_forward)
 #   H2  STRIDE_HASH_BITS 7 -> 8 (different slot order in every table)
@@ -175,6 +178,7 @@ def gen(rng, tier):
     cases = []
     for ci in range(ncases):
         pol = 0 if rng.random() < 0.6 else rng.choice([-1, -1, 1, 2, 3])
+        if ci % 9 == 3: pol = [0, -1, 2, 1][(ci // 9) % 4]       # the zero-retained block below: every flavour, deterministically
         g = G(rng, pol)
         lgk = rng.choice([5, 5, 5, 6, 6, 7]) if (quick or ci % 40) else 12
         k = 1 << lgk
@@ -292,6 +296,34 @@ def gen(rng, tier):
                         t2 = g.tmp(); g.ops.append([19, t, SK2, t2, 1, seed, 0]); g.again()
                         g.ops.append([16, IR, pol, seed]); g.ops.append([17, IR, SK2, 0]); g.ops.append([17, IR, t, 0]); g.ops.append([18, IR, g.tmp(), 1])
             g.tags.add('union-reuse')
+        if ci % 9 == 3:
+            # operands that are NOT empty but retain nothing (theta < 1), in every position of every set operation:
+            #   ZP: a p = 2^-20 sketch whose keys were all screened out; ZI: intersection of disjoint estimation-mode sketches;
+            #   ZF: a filter that kept nothing of an estimation-mode sketch
+            XE, XS, XD, ZP, ZI, ZF, UZ, IZ = 90, 91, 92, 93, 94, 95, 65, 66
+            g.ops.append([1, XE, pol, 5, 0, P_ONE, seed]); g.ops.append([1, XD, pol, 5, 0, P_ONE, seed]); g.ops.append([1, XS, pol, 6, 0, P_ONE, seed])
+            for i in range(200): g.update(XE, 40000 + i); g.update(XD, 50000 + i)
+            for i in range(12): g.update(XS, 40000 + 7 * i)
+            g.ops.append([1, ZP, pol, 5, 0, fbits(2.0 ** -20), seed])
+            for i in range(5): g.update(ZP, 40000 + i)
+            g.ops.append([16, IZ, pol, seed]); g.ops.append([17, IZ, XE, 0]); g.ops.append([17, IZ, XD, 0]); g.ops.append([18, IZ, ZI, 1])
+            g.ops.append([11, XE, ZF, 1, 99])
+            for r in (XE, XS, XD, ZP, ZI, ZF): g.ops.append([7, r])
+            for Z in (ZP, ZI, ZF):
+                for X in (XE, XS):
+                    for (a, b) in ((Z, X), (X, Z)):
+                        g.ops.append([19, a, b, g.tmp(), rng.randrange(2), seed, 0]); g.again(); g.ops.append([7, a]); g.ops.append([7, b])
+                    for ins in ((Z, X), (X, Z), (XS, Z, XE)):
+                        g.ops.append([16, IZ, pol, seed])
+                        for r in ins:
+                            g.ops.append([17, IZ, r, 0]); g.ops.append([18, IZ, g.tmp(), rng.randrange(2)]); g.ops.append([7, r])
+                for ins in ((Z, XS, XE), (XS, Z, XE), (XS, XE, Z), (Z,)):
+                    g.ops.append([12, UZ, pol, rng.choice([5, 7]), 0, P_ONE, seed])
+                    for r in ins:
+                        g.ops.append([13, UZ, r, 0]); g.ops.append([14, UZ, g.tmp(), rng.randrange(2)]); g.ops.append([7, r])
+                    g.ops.append([14, UZ, g.tmp(), 1]); g.again()
+                g.ops.append([11, Z, g.tmp(), 1, 0]); g.again(); g.ops.append([5, Z, g.tmp(), 1]); g.ops.append([36, Z, g.tmp(), 0, rng.randrange(2), seed])
+            g.tags.add('zero-retained-operands')
         # ---- set operations
         UN, IN = 60, 61
         nset = rng.choice([0, 1, 2, 3, 4]) if nstream else rng.choice([0, 1])
